@@ -20,6 +20,7 @@ THEOREMS = [
     "leaves_ongoing", "leaves_when", "timed_out_holder_reported_and_dropped",
     "multi_key_in_range", "multi_key_in_range_refuted",
     "liveness_bound", "liveness",
+    "add_keys_within_cap_fetches_exactly_unheld", "add_keys_idle_clean",
 ]
 IMPORTS = "Require Import V.model.Fetcher."
 RULE = ("histories of 1-60 primitive operations on one fetcher: 2-4 holders, 3-40 keys (real 256-bit XOR "
@@ -624,6 +625,12 @@ def run(ctx):
         "FETCH_TIMEOUT, PENDING_TIMEOUT re-read from the source; the harness reports the compiled values",
         "hook ant_networking::verif_hooks::replication_fetcher (wrapper, dumps, age), harness/crates/c08, "
         "tools/props/C08.py (generator, oracle, renderer)"])
+    # auxiliary (not part of C08's verdict): the translation of the bridge to C09's model/Replication.v lives
+    # in proofs/FetcherBridgeRepl.v and is meant to be pinned by props/C09.v; build it so that it cannot rot
+    # unnoticed, but a change of C09's model file must not fail C08
+    ok_aux, log_aux = ctx.coq_make(["proofs/FetcherBridgeRepl.v"])
+    ctx.log("auxiliary proofs/FetcherBridgeRepl.v (bridge to model/Replication.v): %s"
+            % ("builds" if ok_aux else "DOES NOT BUILD: " + log_aux[-600:]))
     binary = ctx.cargo_build("c08")
     ctx.c08_consts = read_consts()
     cases = ctx.corpus()
